@@ -118,12 +118,13 @@ macro_rules! same4 { ($a:expr, $b:expr, $op:tt, $what:expr) => {{
 macro_rules! same2 { ($a:expr, $s:expr, $op:tt, $what:expr) => {{ let r = $a $op $s; chk(&$a $op $s == r, $what)?; r }} }
 macro_rules! same_asg { ($a:expr, $b:expr, $op:tt, $opa:tt, $what:expr) => {{ let mut t = $a; t $opa $b; chk(t == $a $op $b, $what)?; }} }
 
-macro_rules! vec_forms { ($ctx:ident, $name:expr, $n:expr, $mk:expr, $S:ty, $gen:expr, $conv:expr) => {{
+macro_rules! vec_forms { ($ctx:ident, $name:expr, $n:expr, $mk:expr, $S:ty, $gen:expr, $conv:expr, $fromx:expr) => {{
     for _ in 0..6 * $ctx.scale {
         let inp: Vec<BigRat> = $gen($ctx, 2 * $n + 1);
         let inp2 = inp.clone();
-        $ctx.pred($name, &inp, &|| (), &|_| {
-            let vals2: Vec<$S> = inp2.iter().map($conv).collect();
+        $ctx.pred($name, &inp, &|| (), &|x| {
+            // at the exact scalar the operands are the (possibly symbolic) inputs themselves; natively the converted values
+            let vals2: Vec<$S> = $fromx(x, &inp2);
             let (a, b, s) = ($mk(&vals2[..$n]), $mk(&vals2[$n..2 * $n]), vals2[2 * $n]);
             same4!(a, b, +, "+ forms"); same4!(a, b, -, "- forms");
             same2!(a, s, *, "*s forms"); same2!(a, s, /, "/s forms"); same2!(a, s, %, "%s forms");
@@ -142,16 +143,16 @@ fn to_f64(r: &BigRat) -> f64 { r.to_f64() }
 
 pub fn preds(ctx: &mut Ctx) {
     // vectors and points, at the exact scalar, i32 and f64
-    macro_rules! vp { ($S:ty, $gen:expr, $conv:expr, $sfx:expr) => {{
-        vec_forms!(ctx, concat!("forms:Vector1:", $sfx), 1, |x: &[$S]| Vector1::new(x[0]), $S, $gen, $conv);
-        vec_forms!(ctx, concat!("forms:Vector2:", $sfx), 2, |x: &[$S]| Vector2::new(x[0], x[1]), $S, $gen, $conv);
-        vec_forms!(ctx, concat!("forms:Vector3:", $sfx), 3, |x: &[$S]| Vector3::new(x[0], x[1], x[2]), $S, $gen, $conv);
-        vec_forms!(ctx, concat!("forms:Vector4:", $sfx), 4, |x: &[$S]| Vector4::new(x[0], x[1], x[2], x[3]), $S, $gen, $conv);
+    macro_rules! vp { ($S:ty, $gen:expr, $conv:expr, $sfx:expr, $fromx:expr) => {{
+        vec_forms!(ctx, concat!("forms:Vector1:", $sfx), 1, |x: &[$S]| Vector1::new(x[0]), $S, $gen, $conv, $fromx);
+        vec_forms!(ctx, concat!("forms:Vector2:", $sfx), 2, |x: &[$S]| Vector2::new(x[0], x[1]), $S, $gen, $conv, $fromx);
+        vec_forms!(ctx, concat!("forms:Vector3:", $sfx), 3, |x: &[$S]| Vector3::new(x[0], x[1], x[2]), $S, $gen, $conv, $fromx);
+        vec_forms!(ctx, concat!("forms:Vector4:", $sfx), 4, |x: &[$S]| Vector4::new(x[0], x[1], x[2], x[3]), $S, $gen, $conv, $fromx);
         for _ in 0..6 * ctx.scale {
             let inp: Vec<BigRat> = $gen(ctx, 7);
             let inp2 = inp.clone();
-            ctx.pred(concat!("forms:Point:", $sfx), &inp, &|| (), &|_| {
-                let vals: Vec<$S> = inp2.iter().map($conv).collect();
+            ctx.pred(concat!("forms:Point:", $sfx), &inp, &|| (), &|x| {
+                let vals: Vec<$S> = $fromx(x, &inp2);
                 let s = vals[6];
                 let (p, q, v) = (Point3::new(vals[0], vals[1], vals[2]), Point3::new(vals[3], vals[4], vals[5]), Vector3::new(vals[3], vals[4], vals[5]));
                 same4!(p, v, +, "P3 + V"); same4!(p, v, -, "P3 - V"); same4!(p, q, -, "P3 - P3");
@@ -169,7 +170,9 @@ pub fn preds(ctx: &mut Ctx) {
             });
         }
     }}; }
-    vp!(Xq, gen_q, to_xq, "Xq"); vp!(i32, gen_int, to_i32, "i32"); vp!(f64, gen_half, to_f64, "f64");
+    vp!(Xq, gen_q, to_xq, "Xq", |x: &[Xq], _i: &Vec<BigRat>| x.to_vec());
+    vp!(i32, gen_int, to_i32, "i32", |_x: &[Xq], i: &Vec<BigRat>| i.iter().map(to_i32).collect::<Vec<i32>>());
+    vp!(f64, gen_half, to_f64, "f64", |_x: &[Xq], i: &Vec<BigRat>| i.iter().map(to_f64).collect::<Vec<f64>>());
     // negation (by value / by reference)
     for _ in 0..6 * ctx.scale {
         let g = ctx.generic(40);
